@@ -91,6 +91,12 @@ func (e *Exec) callFn(fn *ssa.Function, args []Value, bindings []Value, c *ssa.C
 	if o := fn.Origin(); o != nil {
 		name = o.String()
 	}
+	if e.Cfg.Summaries {
+		if stub, ok := summaryStubs[name]; ok {
+			e.StubsSeen["summary:"+name] = true
+			return stub(e, fn, args)
+		}
+	}
 	if stub, ok := stubs[name]; ok {
 		e.StubsSeen[name] = true
 		return stub(e, fn, args)
@@ -259,7 +265,7 @@ func (e *Exec) appendOp(dst, src Value, t types.Type) Value {
 				e.PreWrites[d.Buf.Name] = true
 			}
 			d.Buf.Fn = FnCopy{Old: d.Buf.Fn, DOff: smt.Add(d.Off, d.Len), Src: sv.Fn, SOff: sv.Off, N: sv.Len}
-			return Bytes{Buf: d.Buf, Off: d.Off, Len: newLen, Cap: d.Cap}
+			return Bytes{Buf: d.Buf, Off: d.Off, Len: newLen, Cap: d.Cap, Segs: e.appendSegs(d, src)}
 		}
 		// reallocate; capacity is any value >= newLen (Go's growth policy is unspecified)
 		var fn ByteFn = FnZero{}
@@ -270,7 +276,7 @@ func (e *Exec) appendOp(dst, src Value, t types.Type) Value {
 		ncap := e.fresh("cap", smt.BV64)
 		e.assume(smt.And(smt.ULe(newLen, ncap), smt.ULt(ncap, smt.Const(1<<40, 64))))
 		buf := e.newBuf(fn, ncap)
-		return Bytes{Buf: buf, Off: c0, Len: newLen, Cap: ncap}
+		return Bytes{Buf: buf, Off: c0, Len: newLen, Cap: ncap, Segs: e.appendSegs(d, src)}
 	}
 	d := dst.(Slice)
 	s := src.(Slice)
@@ -671,4 +677,19 @@ func (e *Exec) minTerm(a, b *smt.Term) *smt.Term {
 		}
 	}
 	return smt.Ite(lt, a, b)
+}
+
+// appendSegs keeps the structured-key annotation across append.
+func (e *Exec) appendSegs(d Bytes, src Value) []KItem {
+	sb, ok := src.(Bytes)
+	if !ok {
+		if d.Segs == nil {
+			return nil
+		}
+		return append(append([]KItem{}, d.Segs...), KItem{V: strView(src.(Str))})
+	}
+	if d.Segs == nil && sb.Segs == nil {
+		return nil
+	}
+	return append(append([]KItem{}, e.keyItems(d)...), e.keyItems(sb)...)
 }
